@@ -633,10 +633,20 @@ class Engine:
                 if isinstance(x, SR) and z3.is_const(x.e):
                     reals.append(x.e)
         reals = reals[:40]
-        m = self.model  # the model the path was steered with, when it is still valid (no new query at the path's end)
+        m = None
+        if reals and _VALIDATION_SPENT[0] <= 6.0:
+            # one query (hard wall-clock limit) for a model off the boundaries ...
+            t0 = time.time()
+            gen = [z3.And(c != 0, c != 1, c != -1, z3.Or(c > z3.RealVal("1/64"), c < z3.RealVal("-1/64"))) for c in reals]
+            gen += [reals[i] != reals[j] for i in range(min(len(reals), 10)) for j in range(i)]
+            r, mg = self._check(tuple(gen), min(self.fork_timeout, 1500))
+            _VALIDATION_SPENT[0] += time.time() - t0
+            if r == z3.sat and mg is not None:
+                m = mg
+        if m is None:
+            m = self.model  # ... else the model the path was steered with, if that one happens to be generic
         if m is None:
             return None
-        # (no extra solver query: a model that happens to be generic is used, the others are passed over)
         vals = []
         for c in reals:
             v = m.eval(c, model_completion=True)
